@@ -41,6 +41,7 @@ SetBit(a, b) == IF HasBit(a, b) THEN a ELSE a + b
 ClrBit(a, b) == IF HasBit(a, b) THEN a - b ELSE a
 PutBit(a, b, on) == IF on THEN SetBit(a, b) ELSE ClrBit(a, b)
 
+B01(v) == IF v THEN 1 ELSE 0
 DefAttr == [fg |-> 7, bg |-> 0, at |-> 0, fp |-> 0]
 \* Caret::get_attribute: in ice mode blink folds into a bright background
 Norm(s) == IF s.ice
@@ -875,6 +876,90 @@ ViewdataStep(s, c) ==
     [] c < 32 -> Done(s)
     [] OTHER -> VdInterpret(s, c)
 
+\* petscii::Parser (C64/C128): pt = [esc, rev, shift]
+RECURSIVE PetShiftRows(_, _, _)
+PetShiftRows(s, y, page) ==
+  IF y >= s.bh THEN s
+  ELSE PetShiftRows(WriteRow(s, y, 0, s.bw - 1, LAMBDA x : LET q == BufGet(s, x, y) IN <<q[1], q[2], q[3], q[4], page>>), y + 1, page)
+PetShift(s, m) == IF s.pt.shift = m THEN s ELSE PetShiftRows([s EXCEPT !.pt.shift = m], 0, B01(m))
+PetEsc(s0, c) ==
+  LET s == [s0 EXCEPT !.pt.esc = FALSE] IN
+  CASE c = 81 -> Ok(ClearLineEnd(s))
+    [] c = 80 -> Ok(ClearLineStart(s))
+    [] c = 64 -> Ok(ClearDown(s))
+    [] c = 74 -> Ok([s EXCEPT !.x = 0])
+    [] c = 75 -> Ok([s EXCEPT !.x = s.tw - 1])
+    [] c = 68 -> Ok(RemoveTermLine(s, s.y))
+    [] c = 73 -> Ok(InsertTermLine(s, s.y))
+    [] OTHER -> Ok(s)
+PetColor(c) ==
+  CASE c = 5 -> 1 [] c = 28 -> 2 [] c = 30 -> 5 [] c = 31 -> 6 [] c = 129 -> 8 [] c = 144 -> 0 [] c = 149 -> 9 [] c = 150 -> 10 [] c = 151 -> 11
+    [] c = 152 -> 12 [] c = 153 -> 13 [] c = 154 -> 14 [] c = 155 -> 15 [] c = 156 -> 4 [] c = 158 -> 7 [] c = 159 -> 3 [] OTHER -> -1
+PetsciiStep(s, c0) ==
+  LET c == c0 % 256 IN
+  IF s.pt.esc THEN PetEsc(s, c)
+  ELSE CASE PetColor(c) >= 0 -> Ok([s EXCEPT !.ca.fg = PetColor(c)])
+         [] c \in {2, 7, 8, 9} -> Ok(s)
+         [] c = 10 -> Ok([s EXCEPT !.x = 0])
+         [] c = 13 \/ c = 141 -> Ok([Lf(s) EXCEPT !.pt.rev = FALSE])
+         [] c = 14 -> Ok(PetShift(s, FALSE))
+         [] c = 17 -> Ok(Down(s, 1))
+         [] c = 18 -> Ok([s EXCEPT !.pt.rev = TRUE])
+         [] c = 19 -> LET p == UpperLeft(s) IN Ok([s EXCEPT !.x = p[1], !.y = p[2]])
+         [] c = 20 -> Ok(Bs(s))
+         [] c = 27 -> Ok([s EXCEPT !.pt.esc = TRUE])
+         [] c = 29 -> Ok(Right(s, 1))
+         [] c = 142 -> Ok(PetShift(s, TRUE))
+         [] c = 145 -> Ok(Up(s, 1))
+         [] c = 146 -> Ok([s EXCEPT !.pt.rev = FALSE])
+         [] c = 147 -> Ok(ClearScreen(s))
+         [] c = 157 -> Ok(Left(s, 1))
+         [] c = 255 -> Ok(PrintCh(s, Cell(94, s.ca)))
+         [] OTHER ->
+              LET t == IF c >= 32 /\ c <= 63 THEN c
+                       ELSE IF (c >= 64 /\ c <= 95) \/ (c >= 160 /\ c <= 191) THEN c - 64
+                       ELSE IF c >= 96 /\ c <= 127 THEN c - 32
+                       ELSE IF c >= 192 /\ c <= 254 THEN c - 128 ELSE -1
+              IN IF t < 0 THEN Err(s)
+                 ELSE LET q == Cell(IF s.pt.rev THEN t + 128 ELSE t, s.ca) IN Ok(PrintCh(s, <<q[1], q[2], q[3], q[4], B01(s.pt.shift)>>))
+
+\* mode7::Parser (BBC Micro teletext): m7 = [contig, gfx]
+M7Down(s) == Index(s)
+M7Up(s) == [s EXCEPT !.y = IF s.y > 0 THEN s.y - 1 ELSE s.th - 1]
+M7Right(s) == IF s.x + 1 >= s.tw THEN M7Down([s EXCEPT !.x = 0]) ELSE [s EXCEPT !.x = s.x + 1]
+M7Left(s) == IF s.x > 0 THEN [s EXCEPT !.x = s.x - 1] ELSE M7Up([s EXCEPT !.x = s.tw - 1])
+M7Print(s, ch) == M7Right(SetCell(s, s.x, s.y, Cell(ch, s.ca)))
+Mode7Step(s, c0) ==
+  LET c == c0 % 256
+      A(t, f) == [t EXCEPT !.ca.at = f]
+      FP(t) == M7Print(VdFill(t), 32)
+  IN
+  CASE c = 8 -> Ok(M7Left(s))
+    [] c = 9 -> Ok(M7Right(s))
+    [] c = 10 -> Ok(M7Down(s))
+    [] c = 11 -> Ok(M7Up(s))
+    [] c = 12 -> Ok(ResetColor([ResetTerminal(s) EXCEPT !.rows = <<>>, !.lhl = 0, !.x = 0, !.y = 0]))
+    [] c = 13 -> Ok([s EXCEPT !.x = 0])
+    [] c = 30 -> LET p == UpperLeft(s) IN Ok([s EXCEPT !.x = p[1], !.y = p[2]])
+    [] c < 32 -> Ok(s)
+    [] c = 127 -> Ok(Bs(s))
+    [] c >= 129 /\ c <= 135 -> Ok(FP([A(s, ClrBit(s.ca.at, CONCEAL)) EXCEPT !.m7.gfx = FALSE, !.ca.fg = 1 + (c - 129)]))
+    [] c = 136 -> Ok(FP(A(s, SetBit(s.ca.at, BLINK))))
+    [] c = 137 -> Ok(FP(A(s, ClrBit(s.ca.at, BLINK))))
+    [] c = 140 -> Ok(FP(A(s, ClrBit(s.ca.at, DHEIGHT))))
+    [] c = 141 -> Ok(FP(A(s, SetBit(s.ca.at, DHEIGHT))))
+    [] c >= 145 /\ c <= 151 -> Ok(FP([A(s, ClrBit(s.ca.at, CONCEAL)) EXCEPT !.m7.gfx = TRUE, !.ca.fg = 1 + (c - 145)]))
+    [] c = 152 -> Ok(M7Print(IF ~s.m7.gfx THEN VdFill(A(s, SetBit(s.ca.at, CONCEAL))) ELSE s, 32))
+    [] c = 153 -> Ok(M7Print([s EXCEPT !.m7.contig = TRUE, !.m7.gfx = TRUE], 32))
+    [] c = 154 -> Ok(M7Print([s EXCEPT !.m7.contig = FALSE, !.m7.gfx = TRUE], 32))
+    [] c = 156 -> Ok(FP([A(s, ClrBit(s.ca.at, CONCEAL)) EXCEPT !.ca.bg = 0]))
+    [] c = 157 -> Ok(FP([s EXCEPT !.ca.bg = s.ca.fg]))
+    [] c = 158 -> Ok([s EXCEPT !.m7.gfx = TRUE])
+    [] c = 159 -> Ok([s EXCEPT !.m7.gfx = FALSE])
+    [] OTHER -> LET off == IF s.m7.contig THEN 128 ELSE 192
+                    pc == IF c >= 160 /\ c <= 191 THEN c - 160 + off ELSE IF c >= 225 THEN c - 225 + 31 + off ELSE c
+                IN Ok(M7Print(s, pc))
+
 Step(s, c) ==
   CASE s.emu = "ansi" -> AnsiStep(s, c)
     [] s.emu = "avatar" -> AvatarStep(s, c)
@@ -884,6 +969,8 @@ Step(s, c) ==
     [] s.emu = "ascii" -> AsciiStep(s, c)
     [] s.emu = "atascii" -> AtasciiStep(s, c)
     [] s.emu = "viewdata" -> ViewdataStep(s, c)
+    [] s.emu = "petscii" -> PetsciiStep(s, c)
+    [] s.emu = "mode7" -> Mode7Step(s, c)
     [] OTHER -> AnyRes(s)
 
 \* ------------------------------------------------------------------ initial state and projection
@@ -891,6 +978,7 @@ InitStE(emu, w, h, alloc, music, bs) ==
   [emu |-> emu,
    fe |-> [k |-> "chars", n |-> 0, rc |-> 32, code |-> FALSE, color |-> FALSE, val |-> 0, pos |-> 0, ca |-> FALSE, bold |-> FALSE, hbg |-> FALSE, rk |-> 0, first |-> 0, esc |-> FALSE],
    vd |-> [esc |-> FALSE, hold |-> FALSE, held |-> 32, contig |-> TRUE, gfx |-> FALSE],
+   pt |-> [esc |-> FALSE, rev |-> FALSE, shift |-> FALSE], m7 |-> [contig |-> TRUE, gfx |-> FALSE],
    tw |-> w, th |-> h, bw |-> w, bh |-> h, lw |-> w, lh |-> h,
    rows |-> IF alloc THEN Repeat(Repeat(InvCell, w), h) ELSE <<>>,
    x |-> 0, y |-> 0, ca |-> DefAttr, im |-> FALSE, vis |-> TRUE, cblink |-> TRUE, ice |-> FALSE, bice |-> FALSE,
@@ -902,7 +990,7 @@ InitStE(emu, w, h, alloc, music, bs) ==
    mus |-> [k |-> "default", a |-> 0, b |-> 0], octave |-> 3, mlength |-> 4, tempo |-> 120, dotted |-> FALSE]
 
 InitSt(w, h, alloc, music, bs) == InitStE("ansi", w, h, alloc, music, bs)
-Modelled(emu) == emu \in {"ansi", "avatar", "pcboard", "ctrla", "renegade", "ascii", "atascii", "viewdata"}
+Modelled(emu) == emu \in {"ansi", "avatar", "pcboard", "ctrla", "renegade", "ascii", "atascii", "viewdata", "petscii", "mode7"}
 
 \* comparison with a recorded event e (see harness/src/term.rs state_event)
 B(v) == IF v THEN 1 ELSE 0
